@@ -245,6 +245,37 @@ pub fn run(case: &Value, _ctx: &Ctx) -> Outcome {
                     || json!({"a": a, "got": format!("{got:?}"), "expected": e["r"]}),
                 );
             }
+            // "summing along an axis equals ADDING THOSE VIEWS": on cell values that are not small integers (tenths, huge
+            // values, infinities) the sum must be, bit for bit, what adding the views position by position gives
+            if shape.len() > 1 {
+                let n: usize = shape.iter().product();
+                let classes: [(&str, Vec<f64>); 3] = [
+                    ("tenths", (0..n).map(|p| 0.1 * ((p % 7) as f64 + 1.0)).collect()),
+                    ("infinite", (0..n).map(|p| if p % 5 == 1 { f64::INFINITY } else if p % 11 == 3 { -1e308 } else { p as f64 * 0.25 }).collect()),
+                    ("overflowing", (0..n).map(|p| if p % 2 == 0 { 1e308 } else { 9e307 }).collect()),
+                ];
+                for (cname, data) in classes {
+                    let arr = match sfs_core::Array::new(data, shape.clone()) { Ok(a) => a, Err(_) => continue };
+                    for a in 0..shape.len() {
+                        let got = guarded(|| arr.sum(Axis(a)).as_slice().to_vec());
+                        let by_views = guarded(|| {
+                            // zeros of the remaining shape, then one view after the other
+                            let n_out: usize = shape.iter().enumerate().filter(|(j, _)| *j != a).map(|(_, l)| *l).product();
+                            let mut acc = vec![0.0f64; n_out];
+                            for i in 0..shape[a] {
+                                let v: Vec<f64> = arr.get_axis(Axis(a), i).unwrap().iter().copied().collect();
+                                acc = acc.iter().zip(&v).map(|(x, y)| x + y).collect();
+                            }
+                            acc
+                        });
+                        match (got, by_views) {
+                            (Ok(g), Ok(w)) => out.check(g.len() == w.len() && g.iter().zip(&w).all(|(x, y)| x.to_bits() == y.to_bits() || (x.is_nan() && y.is_nan())),
+                                || format!("array/sum-vs-views/{cname}"), || json!({"shape": shape, "axis": a, "sum": g.iter().map(|x| x.to_string()).collect::<Vec<_>>(), "views_added": w.iter().map(|x| x.to_string()).collect::<Vec<_>>()})),
+                            (g, w) => out.fail(format!("array/sum-vs-views/{cname}/panic"), json!({"sum": format!("{:?}", g.err()), "views": format!("{:?}", w.err())})),
+                        }
+                    }
+                }
+            }
         }
         other => out.fail("array/unknown-kind", json!(other)),
     }
